@@ -98,6 +98,192 @@ def cpu_count_cfg(path):
     }
 
 
+# ------------------------------------------------------------------ get_nested_backend and configure
+# Reading: a backend object is its class and nesting_level (Model/NJobs.bk); `getattr(self, "nesting_level", 0)` and
+# `self.nesting_level` are the parameter level; the n_jobs handed to the nested context is None;
+# SequentialBackend.get_nested_backend returns get_active_backend() = the parameter `active`;
+# configure: `raise FallbackToBackend(SequentialBackend(nesting_level=self.nesting_level))` is Raise (OtherError 1)
+# ("fall back to the sequential backend at my own level"); statements after the fallback test that neither assign
+# n_jobs nor return (attribute bookkeeping, pool / executor construction, the loky 'timeout' kwarg check, gc.collect)
+# do not change the returned number and are recognised structurally.
+NESTED_CFG = {
+    "params": [("level", "Z")],
+    "env": {},
+    "subst": {
+        "getattr(self, 'nesting_level', 0)": ("level", "Z"),
+        "SequentialBackend(nesting_level=nesting_level)": ("{| bkind := KSeq; blevel := nesting_level |}", "rec:bk"),
+        "ThreadingBackend(nesting_level=nesting_level)": ("{| bkind := KThr; blevel := nesting_level |}", "rec:bk"),
+    },
+    "skip": [], "ret": "(bk * option Z)",
+}
+SEQ_NESTED_CFG = {
+    "params": [("active", "(bk * option Z)")],
+    "env": {},
+    "subst": {"get_active_backend()": ("active", "tuple")},
+    "skip": ["from .parallel import get_active_backend"], "ret": "(bk * option Z)",
+}
+FALLBACK = "FallbackToBackend(SequentialBackend(nesting_level=self.nesting_level))"
+
+
+def configure_cfg(path, qualname, eff_call):
+    node, _ = translate.find_function(path, qualname)
+    skips, seen = [], False
+    for st in node.body:
+        if isinstance(st, ast.If) and ast.unparse(st.test) == "n_jobs == 1":
+            seen = True
+            continue
+        if isinstance(st, ast.Expr) and isinstance(st.value, ast.Constant):
+            continue
+        if isinstance(st, ast.Return):
+            continue
+        stores = [n for n in ast.walk(st) if isinstance(n, ast.Name) and isinstance(n.ctx, ast.Store) and n.id == "n_jobs"]
+        has_ret = any(isinstance(n, ast.Return) for n in ast.walk(st))
+        if not stores and not has_ret and (seen or ast.unparse(st).startswith("self.parallel = ")):
+            skips.append(ast.unparse(st))
+    return {"params": ENVP, "env": {"n_jobs": ("n_jobs", "Z")},
+            "subst": {"self.effective_n_jobs(n_jobs)": (eff_call, "Z", True)},
+            "exn_subst": {FALLBACK: "(OtherError 1)"},
+            "skip": list(dict.fromkeys(skips)), "ret": "Z"}
+
+
+NESTED_HEADER = """(* REGENERATED on every run by harness/gen_c15.py from joblib/_parallel_backends.py
+   (get_nested_backend and configure of the backend classes).  Do not edit.  The reading table is in gen_c15.py.
+   Raise (OtherError 1) = FallbackToBackend(SequentialBackend(nesting_level=self.nesting_level)). *)
+From Coq Require Import ZArith List Bool.
+Require Import JV.Base.PyPrelude JV.Model.NJobs JV.Gen.T_njobs.
+Import ListNotations.
+Open Scope Z_scope.
+
+"""
+
+
+def generate_nested(repo=None):
+    repo = repo or common.REPO
+    pb = os.path.join(repo, "joblib", "_parallel_backends.py")
+    parts, skipped = [], []
+    code, sk = translate.translate_function(pb, "ParallelBackendBase.get_nested_backend", "base_get_nested_backend", NESTED_CFG)
+    parts.append("(* ParallelBackendBase.get_nested_backend (Threading, Loky, Multiprocessing inherit it) *)\n" + code)
+    code, sk2 = translate.translate_function(pb, "SequentialBackend.get_nested_backend", "seq_get_nested_backend", SEQ_NESTED_CFG)
+    parts.append("(* SequentialBackend.get_nested_backend *)\n" + code)
+    skipped += sk + sk2
+    envargs = "mp_none cpus daemon depth main_thread level n_jobs"
+    for qual, name, eff in [
+        ("ParallelBackendBase.configure", "base_configure", "seq_effective_n_jobs n_jobs"),
+        ("ThreadingBackend.configure", "thr_configure", "pool_effective_n_jobs mp_none cpus n_jobs"),
+        ("LokyBackend.configure", "loky_configure", "loky_effective_n_jobs " + envargs),
+        ("MultiprocessingBackend.configure", "mp_configure", "mp_effective_n_jobs " + envargs),
+    ]:
+        code, sk = translate.translate_function(pb, qual, name, configure_cfg(pb, qual, eff))
+        parts.append("(* %s *)\n%s" % (qual, code))
+        skipped += sk
+    # the size the worker pool / executor is created with, as an expression of the resolved n_jobs
+    def pool_arg(qual, callee, subst=None):
+        node, _ = translate.find_function(pb, qual)
+        calls = [n for n in ast.walk(node) if isinstance(n, ast.Call) and ast.unparse(n.func) == callee]
+        if len(calls) != 1 or not calls[0].args:
+            raise translate.TranslateError("translation of %s no longer matches: expected exactly one call %s(<size>, ...)" % (qual, callee))
+        for kw in calls[0].keywords:
+            if kw.arg in ("max_workers", "processes"):
+                raise translate.TranslateError("translation of %s no longer matches: pool size passed by keyword" % qual)
+        tr = translate.Tr({"subst": subst or {}})
+        c, t, r = tr.expr(calls[0].args[0], {"n_jobs": ("n_jobs", "Z")})
+        if t != "Z" or r:
+            raise translate.TranslateError("translation of %s no longer matches: pool size is not a pure integer expression" % qual)
+        return c
+    thr_conf, _ = translate.find_function(pb, "ThreadingBackend.configure")
+    if "self._n_jobs = n_jobs" not in [ast.unparse(st) for st in thr_conf.body]:
+        raise translate.TranslateError("translation of ThreadingBackend.configure no longer matches: `self._n_jobs = n_jobs` not found")
+    sizes = [("thr_pool_size", pool_arg("ThreadingBackend._get_pool", "ThreadPool", {"self._n_jobs": ("n_jobs", "Z")})),
+             ("loky_pool_size", pool_arg("LokyBackend.configure", "get_memmapping_executor")),
+             ("mp_pool_size", pool_arg("MultiprocessingBackend.configure", "MemmappingPool"))]
+    parts.append("(* number of workers the pool / executor is created with, for the resolved n_jobs:\n"
+                 "   ThreadPool(self._n_jobs), get_memmapping_executor(<size>, ...), MemmappingPool(<size>, ...) *)\n" +
+                 "".join("Definition %s (n_jobs : Z) : Z := %s.\n" % (n, c) for n, c in sizes))
+    # every class must inherit / define what the table assumes
+    src = open(pb).read()
+    tree = ast.parse(src)
+    defs = {c.name: {f.name for f in c.body if isinstance(f, ast.FunctionDef)} for c in tree.body if isinstance(c, ast.ClassDef)}
+    for cls in ("ThreadingBackend", "LokyBackend", "MultiprocessingBackend", "PoolManagerMixin", "AutoBatchingMixin"):
+        if "get_nested_backend" in defs.get(cls, set()):
+            raise translate.TranslateError("translation of get_nested_backend no longer matches: %s overrides it" % cls)
+    if "configure" in defs.get("SequentialBackend", set()) or "configure" in defs.get("PoolManagerMixin", set()) \
+            or "configure" in defs.get("AutoBatchingMixin", set()):
+        raise translate.TranslateError("translation of configure no longer matches: an unexpected class defines configure")
+    out = os.path.join(common.COQ, "Gen", "T_nested.v")
+    changed = common.write_if_changed(out, NESTED_HEADER + "\n".join(parts))
+    return out, changed, skipped
+
+
+# ------------------------------------------------------------------ reusable executor: the three decisions
+EXEC_HEADER = """(* REGENERATED on every run by harness/gen_c15.py from joblib/externals/loky/reusable_executor.py
+   (_ReusablePoolExecutor._resize: the test under which a resize is skipped; get_reusable_executor: the test under which
+   a new executor replaces the current one) and joblib/executor.py (get_memmapping_executor: the reuse decision).
+   Do not edit. *)
+From Coq Require Import ZArith List Bool.
+Require Import JV.Base.PyPrelude.
+Import ListNotations.
+Open Scope Z_scope.
+
+"""
+
+
+def _test_expr(tr, test, env, what):
+    c, t, r = tr.truth(tr.expr(test, env), test)
+    if r:
+        raise translate.TranslateError("translation of %s no longer matches: raising test" % what)
+    return c
+
+
+def generate_executor(repo=None):
+    repo = repo or common.REPO
+    rx = os.path.join(repo, "joblib", "externals", "loky", "reusable_executor.py")
+    ex = os.path.join(repo, "joblib", "executor.py")
+    # 1. _resize: `elif <test>: return` (nothing to do)
+    node, _ = translate.find_function(rx, "_ReusablePoolExecutor._resize")
+    hits = [n for n in ast.walk(node) if isinstance(n, ast.If) and len(n.body) == 1 and isinstance(n.body[0], ast.Return)
+            and n.body[0].value is None]
+    if len(hits) != 1:
+        raise translate.TranslateError("translation of _resize no longer matches: expected exactly one `if <test>: return`")
+    stores = [ast.unparse(n) for n in ast.walk(node) if isinstance(n, ast.Assign) and ast.unparse(n.targets[0]) == "self._max_workers"]
+    if len(stores) != 2 or any(st != "self._max_workers = max_workers" for st in stores):   # unstarted branch + resize proper
+        raise translate.TranslateError("translation of _resize no longer matches: _max_workers is not set to max_workers (%s)" % stores)
+    tr = translate.Tr({"subst": {"self._max_workers": ("cur", "Z")}})
+    c1 = _test_expr(tr, hits[0].test, {"max_workers": ("max_workers", "Z")}, "_resize")
+    # 2. get_reusable_executor: the `if` that shuts the current executor down
+    node, _ = translate.find_function(rx, "_ReusablePoolExecutor.get_reusable_executor")
+    hits = [n for n in ast.walk(node) if isinstance(n, ast.If) and any(
+        isinstance(b, ast.Expr) and isinstance(b.value, ast.Call) and ast.unparse(b.value.func) == "executor.shutdown" for b in n.body)]
+    if len(hits) != 1:
+        raise translate.TranslateError("translation of get_reusable_executor no longer matches: shutdown branch not found")
+    tr = translate.Tr({"subst": {"executor._flags.broken": ("broken", "bool"), "executor._flags.shutdown": ("shutdown", "bool")}})
+    c2 = _test_expr(tr, hits[0].test, {"reuse": ("reuse", "bool")}, "get_reusable_executor")
+    resizes = [n for n in ast.walk(node) if isinstance(n, ast.Call) and ast.unparse(n.func) == "executor._resize"]
+    if len(resizes) != 1 or ast.unparse(resizes[0]) != "executor._resize(max_workers)":
+        raise translate.TranslateError("translation of get_reusable_executor no longer matches: executor._resize(max_workers) not found")
+    # 3. get_memmapping_executor: reuse = <expr>
+    node, _ = translate.find_function(ex, "MemmappingExecutor.get_memmapping_executor")
+    hits = [n for n in ast.walk(node) if isinstance(n, ast.Assign) and ast.unparse(n.targets[0]) == "reuse"]
+    if len(hits) != 1:
+        raise translate.TranslateError("translation of get_memmapping_executor no longer matches: `reuse = ...` not found")
+    tr = translate.Tr({"subst": {"_executor_args is None": ("args_none", "bool"), "_executor_args == executor_args": ("args_equal", "bool")}})
+    c3 = _test_expr(tr, hits[0].value, {}, "get_memmapping_executor")
+    call = [n for n in ast.walk(node) if isinstance(n, ast.Call) and ast.unparse(n.func) == "super().get_reusable_executor"]
+    if len(call) != 1 or not call[0].args or ast.unparse(call[0].args[0]) != "n_jobs" or \
+            "reuse=reuse" not in [ast.unparse(k) for k in call[0].keywords]:
+        raise translate.TranslateError("translation of get_memmapping_executor no longer matches: "
+                                       "super().get_reusable_executor(n_jobs, ..., reuse=reuse, ...) not found")
+    text = EXEC_HEADER + (
+        "(* _resize returns without doing anything when ... *)\n"
+        "Definition resize_noop (max_workers cur : Z) : bool := %s.\n\n"
+        "(* get_reusable_executor shuts the current executor down and builds a new one when ... *)\n"
+        "Definition needs_new (broken shutdown reuse : bool) : bool := %s.\n\n"
+        "(* get_memmapping_executor asks to reuse the executor when ... *)\n"
+        "Definition args_reuse (args_none args_equal : bool) : bool := %s.\n" % (c1, c2, c3))
+    out = os.path.join(common.COQ, "Gen", "T_executor.v")
+    changed = common.write_if_changed(out, text)
+    return out, changed, []
+
+
 HEADER = """(* REGENERATED on every run by harness/gen_c15.py from joblib/_parallel_backends.py and
    joblib/externals/loky/backend/context.py.  Do not edit.  The reading table is in gen_c15.py. *)
 From Coq Require Import ZArith List Bool.
@@ -134,5 +320,9 @@ def generate(repo=None):
 
 
 if __name__ == "__main__":
+    print(generate_executor())
+    print(open(os.path.join(common.COQ, "Gen", "T_executor.v")).read())
+    print(generate_nested())
+    print(open(os.path.join(common.COQ, "Gen", "T_nested.v")).read())
     print(generate()[:2])
     print(open(os.path.join(common.COQ, "Gen", "T_njobs.v")).read())
